@@ -198,6 +198,8 @@ def select_configs(tier="quick"):
     out = []
     for n, k in ([(6, 2), (8, 3), (10, 10), (7, 1)] if tier == "quick" else [(6, 2), (8, 3), (10, 10), (7, 1), (20, 5), (30, 7)]):
         out.append(dict(env="flp", n=n, k=k))
+    out.append(dict(env="flp", n=8, k=3, dist="normal", std=1.0))
+    out.append(dict(env="flp", n=12, k=2, dist="normal", std=2.0))
     for items, sets, k in ([(8, 5, 2), (12, 6, 3), (10, 4, 4), (9, 5, 1)] if tier == "quick" else [(8, 5, 2), (12, 6, 3), (10, 4, 4), (9, 5, 1), (40, 15, 5)]):
         out.append(dict(env="mcp", n=sets, items=items, k=k))
     for size, kmin, kmax, dec in ([(4, 1, 4, 3), (5, 3, 10, 6), (4, 5, 6, 10)] if tier == "quick" else [(4, 1, 4, 3), (5, 3, 10, 6), (4, 5, 6, 10), (6, 5, 20, 12)]):
@@ -272,7 +274,10 @@ def make_other(cfg):
     if name == "smtwtp":
         return E.SMTWTPEnv(generator_params=dict(num_job=cfg["n"]))
     if name == "flp":
-        return E.FLPEnv(generator_params=dict(num_loc=cfg["n"], to_choose=cfg["k"]))
+        gp = dict(num_loc=cfg["n"], to_choose=cfg["k"])
+        if cfg.get("dist") == "normal":  # coordinates outside the nominal [min_loc, max_loc] box (documented sampler option)
+            gp.update(loc_distribution="normal", loc_mean=0.5, loc_std=cfg.get("std", 1.0))
+        return E.FLPEnv(generator_params=gp)
     if name == "mcp":
         return E.MCPEnv(generator_params=dict(num_items=cfg["items"], num_sets=cfg["n"], n_sets_to_choose=cfg["k"], min_size=cfg.get("min_size", 2), max_size=cfg.get("max_size", 4)))
     if name == "dpp":
